@@ -12,8 +12,12 @@ pub mod fub;
 #[cfg(futures_buffered_verif)]
 pub mod fob;
 #[cfg(futures_buffered_verif)]
+pub mod ad;
+#[cfg(futures_buffered_verif)]
 pub mod fu;
 #[cfg(futures_buffered_verif)]
-pub mod harnesses;
+pub mod ja;
 #[cfg(futures_buffered_verif)]
-pub mod xmini;
+pub mod mg;
+#[cfg(futures_buffered_verif)]
+pub mod harnesses;
